@@ -15,7 +15,7 @@ use std::{
     task::Poll,
 };
 
-use cucumber::{Cucumber, Parser, Writer, cli, parser, runner, writer};
+use cucumber::{Cucumber, Parser, Writer, cli, runner, writer};
 use serde_json::{Value, json};
 use vlab::{
     engine::{self, CaseOut, Ctx, Input, Property, Tier, Violation},
@@ -98,6 +98,9 @@ fn run_one(input: &Input, want_sample: bool) -> Value {
     let mut fut = Box::pin(cuc.run(()));
     let mut done = false;
     let mut tb = Tape::new(input.b.clone());
+    // Half of the cases poll the run inside an ambient user span (as a `#[tracing::instrument]`ed
+    // test function or `.instrument(span)` would), so that the scenario span is not the root.
+    let ambient = ta.chance(1, 2).then(|| tracing::info_span!("ambient_user_span", run = 1));
     let q = queue.0.clone();
     let mut poll = |cx: &mut std::task::Context<'_>| -> Poll<Option<RawEv>> {
         if let Some(e) = q.borrow_mut().pop_front() {
@@ -106,7 +109,11 @@ fn run_one(input: &Input, want_sample: bool) -> Value {
         if done {
             return Poll::Ready(None);
         }
-        match fut.as_mut().poll(cx) {
+        let polled = match &ambient {
+            Some(sp) => sp.in_scope(|| fut.as_mut().poll(cx)),
+            None => fut.as_mut().poll(cx),
+        };
+        match polled {
             Poll::Ready(_) => {
                 done = true;
                 match q.borrow_mut().pop_front() {
@@ -236,6 +243,9 @@ fn run_one(input: &Input, want_sample: bool) -> Value {
     }
     if n_logs > 0 {
         labels.push("has_logs");
+    }
+    if ambient.is_some() {
+        labels.push("ambient_user_span");
     }
     let desc = case.describe();
     let sched: String = log.quiescent.iter().map(|q| format!("{},", q.choice)).collect();
